@@ -7,6 +7,7 @@ import json, os, random
 from harness import core, e2e, e2ekit
 from harness.props import c10
 
+REORDER = 2
 KINDS = ("text", "xtext", "url", "image", "location", "contact")
 CONTENT = {"xtext": "extended_text", "url": "extended_text", "image": "image", "location": "location", "contact": "contact"}
 MARKED = {"extended_text": "text", "image": "caption", "location": "name", "contact": "display_name"}
@@ -116,7 +117,7 @@ def run_script(script, payloads, roots, rng):
             return lambda en: ([e for e in en if e[0] == "deliver"] or en)[0]
         if policy == "process-first":
             return lambda en: ([e for e in en if e[0] == "process"] or en)[-1]
-        r2 = random.Random(policy[1])
+        r2 = random.Random(policy[1])       # ["rand", seed] and ["reorder", seed]
         return lambda en: r2.choice(en)
     step = None
     try:
@@ -136,8 +137,9 @@ def run_script(script, payloads, roots, rng):
                 if w.server.inq[op[1]]:
                     w.do_process(op[1])
             elif k == "deliver":
-                if w.server.outq[op[1]]:
-                    hd = w.head(op[1])
+                j = op[3] if len(op) > 3 else 1
+                if len(w.server.outq[op[1]]) >= j:
+                    hd = w.head(op[1], j)
                     f = op[2] or None
                     if f and not (hd["k"] == "msg" and (hd["i"], op[1]) not in used):
                         f = None
@@ -145,9 +147,13 @@ def run_script(script, payloads, roots, rng):
                         used.add((hd["i"], op[1]))
                     else:
                         f = fault_for(op[1], hd)
-                    w.do_deliver(op[1], f)
+                    w.do_deliver(op[1], f, j)
             elif k == "settle":
-                w.settle(chooser(op[1]), fault_for=fault_for)
+                pj = None
+                if isinstance(op[1], list) and op[1][0] == "reorder":
+                    r3 = random.Random(op[1][1] + 1)
+                    pj = lambda name, n, r3=r3: r3.randint(1, min(n, REORDER))
+                w.settle(chooser(op[1]), fault_for=fault_for, pick_j=pj)
             elif k == "restart":
                 if not w.enabled():
                     w.do_restart(op[1])
@@ -208,7 +214,7 @@ def from_sched(n, sched, rng):
         elif a["t"] == "Process":
             ops.append(["process", a["c"]])
         else:
-            ops.append(["deliver", a["c"], a["f"]])
+            ops.append(["deliver", a["c"], a["f"], a.get("j", 1)])
     return {"n": n, "ops": ops, "label": "tlc-sim"}
 
 
@@ -303,6 +309,12 @@ def run(only=None):
     r.notes["selftest_asread_switch_violates"] = "AtMostOnce"
     payloads = Payloads(rng, r.scratch)
     scripts = families(thorough, rng)
+    # the same families with the server delivering one of the first REORDER queued stanzas instead of the oldest
+    base = list(scripts)
+    for si, s in enumerate(base):
+        if thorough or si % 3 == 0:
+            scripts.append({"n": s["n"], "label": s["label"] + "+reorder",
+                            "ops": [(["settle", ["reorder", si]] if op[0] == "settle" else op) for op in s["ops"]]})
     nsim = {2: 60, 3: 60, 4: 20} if not thorough else {2: 1500, 3: 1500, 4: 400}
     for n, num in nsim.items():
         res = core.tlc("E2E_Sim", "E2E_Sim_%d.cfg" % n, r.scratch, workers=1, simulate="num=%d" % num, depth=70, seed_=core.seed() + n, timeout=3000)
@@ -339,7 +351,7 @@ def run(only=None):
     finally:
         roots.close()
     r.assumptions += core.ENV_ASSUMPTIONS[:2] + [e2e.AXOLOTL_ASSUMPTION,
-                      "the server is the harness double: per-client FIFO queues, it delivers in queue order per recipient (reordering happens between queues)",
+                      "the server is the harness double: per-client queues; it serves clients' stanzas in the order each client sent them and delivers the oldest or second-oldest stanza queued for a recipient",
                       "stacks start above the Noise transport (C04/C05 cover it): network(fake dispatcher) | wire tap | coder | logger | axolotl | protocol layers | app double",
                       "prekey batches of 6 (threshold 3), the server asks for more keys when 2 are left",
                       "faults: at most one (dup or corrupt) per message and recipient; corrupt = last ciphertext byte flipped; restarts only at quiescent points"]
